@@ -6,6 +6,7 @@ Import ListNotations.
 Require Import RV.Lib.Prog RV.Model.Fs RV.Model.StorageOps RV.Proofs.ProgLemmas RV.Proofs.FsLemmas
   RV.Proofs.FsInv RV.Proofs.CacheCalm RV.Proofs.C12Units RV.Proofs.C12Units2 RV.Proofs.C02Base.
 Open Scope N_scope.
+Local Transparent machine_wp.
 
 Definition data (q : path) : Prop := is_data q = true.
 (* the visible store of s' is given by f *)
